@@ -92,6 +92,9 @@ func c09Collect(lab *vLab, res *c09Case, from int, phase int) {
 	}
 }
 
+// c09CloseExporter: the exporting connection is closed with Close() (transport open) before the import.
+var c09CloseExporter bool
+
 func runC09(t *testing.T, variant string, mtu, drop, dup int, writers, perWriter int, doImport bool) c09Case {
 	t.Helper()
 	res := c09Case{Kind: "session", Variant: variant, MTU: mtu, Drop: drop, Dup: dup, ImportAt: -1}
@@ -147,6 +150,14 @@ func runC09(t *testing.T, variant string, mtu, drop, dup int, writers, perWriter
 				t.Fatalf("marshal: %v", err)
 			}
 			res.ImportAt = int(st.localEpoch)
+			if c09CloseExporter {
+				// the application shuts the exporting connection down with Close while its
+				// transport is still open (export -> Close -> resume elsewhere): the close_notify
+				// it emits belongs to the same session as the records of the imported connection
+				res.Kind = "session-export-close"
+				_ = lab.Server.Conn.Close()
+				synctest.Wait()
+			}
 			_ = lab.Server.EP.Close() // the original can no longer write
 			synctest.Wait()
 			st2 := &State{}
@@ -278,6 +289,15 @@ func TestVerifC09(t *testing.T) {
 		})
 		out.emit(res)
 	}
+	// export -> Close of the exporting connection (its transport still open) -> import -> Write
+	c09CloseExporter = true
+	for _, v := range []string{"psk-gcm", "cert-ccm-cid", "psk-cbc-cid"} {
+		v := v
+		var res c09Case
+		vBubble(t, func(t *testing.T) { res = runC09(t, v, 0, -1, -1, 1, 3, true) })
+		out.emit(res)
+	}
+	c09CloseExporter = false
 	for _, below := range []uint64{0, 1, 3} {
 		below := below
 		var res c09Case
